@@ -201,7 +201,7 @@ impl RegistryCore {
 
                 // Add registry common labels, if any.
                 if let Some(ref hmap) = self.labels {
-                    let pairs: Vec<proto::LabelPair> = hmap
+                    let mut pairs: Vec<proto::LabelPair> = hmap
                         .iter()
                         .map(|(k, v)| {
                             let mut label = proto::LabelPair::default();
@@ -210,6 +210,9 @@ impl RegistryCore {
                             label
                         })
                         .collect();
+                    // `hmap` iterates in a per-process random order; sort the
+                    // common labels by name so that the output is deterministic.
+                    pairs.sort();
 
                     for metric in m.mut_metric().iter_mut() {
                         let mut labels: Vec<_> = metric.take_label();
